@@ -337,6 +337,9 @@ def generate(tier, seed):
     if tier == "thorough":
         seqs += [[a, b, c] for a in c17.FORMS8[:6] for b in c17.FORMS8[:6] for c in c17.FORMS8[:6]]
     for fs in seqs:
+        if tier == "quick" and fs == ["n3"]:
+            obs.append(t311_ob(fs, "thorough"))     # one 3-byte varint (line deltas beyond +-2047): ~40 s, with the longer time-out
+            continue
         if tier == "quick" and (any(f in ("n3", "l3111") for f in fs) or
                                 all(f.startswith("l") for f in fs) and len(fs) > 1):
             continue  # need > 60 s of solver time: thorough tier only
